@@ -128,3 +128,111 @@ theorem pos_add_neg (n : Bytes) (es : Elements) : posOf n es + negOf n es = sumO
 
 end Spec
 end Hrano
+
+/-! ### names held by an accumulator -/
+namespace Hrano
+open Spec
+
+namespace Accumulator
+
+theorem names_add (a : Accumulator) (n : Bytes) (v : Q) :
+    names (add a n v) = if n ∈ names a then names a else names a ++ [n] := by
+  induction a with
+  | nil => simp [add, names]; split <;> rfl
+  | cons x xs ih =>
+    unfold add
+    by_cases hx : (x.name == n) = true
+    · have hxn : x.name = n := by simpa using hx
+      simp only [hx, if_true]
+      have : n ∈ names (x :: xs) := by simp [names, hxn]
+      simp only [this, if_true]
+      split <;> simp [names]
+    · have hx' : (x.name == n) = false := by simpa using hx
+      have hne : x.name ≠ n := by simpa using hx
+      simp only [hx', Bool.false_eq_true, if_false]
+      simp only [names, List.map_cons] at ih ⊢
+      rw [ih]
+      by_cases hm : n ∈ List.map (·.name) xs
+      · have : n ∈ x.name :: List.map (·.name) xs := List.mem_cons_of_mem _ hm
+        simp [hm, this]
+      · have : n ∉ x.name :: List.map (·.name) xs := by
+          intro h; rcases List.mem_cons.mp h with h | h
+          · exact hne h.symm
+          · exact hm h
+        simp [hm, this]
+
+theorem nodup_add (a : Accumulator) (n : Bytes) (v : Q) (h : (names a).Nodup) : (names (add a n v)).Nodup := by
+  rw [names_add]
+  split
+  · exact h
+  · rename_i hn
+    exact List.nodup_append.mpr ⟨h, by simp, by intro x hx y hy; simp at hy; subst hy; intro hxy; exact hn (hxy ▸ hx)⟩
+
+theorem mem_names_add (a : Accumulator) (n m : Bytes) (v : Q) :
+    m ∈ names (add a n v) ↔ m ∈ names a ∨ m = n := by
+  rw [names_add]
+  split
+  · rename_i hn
+    constructor
+    · exact Or.inl
+    · rintro (h | h)
+      · exact h
+      · exact h ▸ hn
+  · simp
+
+/-- with distinct names, an entry is what `find` returns for its name -/
+theorem find_of_mem (a : Accumulator) (h : (names a).Nodup) (x : Acc) (hx : x ∈ a) : find a x.name = some x := by
+  induction a with
+  | nil => cases hx
+  | cons y ys ih =>
+    simp only [names, List.map_cons, List.nodup_cons] at h
+    rcases List.mem_cons.mp hx with rfl | hx'
+    · simp [find, List.find?]
+    · have hne : (y.name == x.name) = false := by
+        have : y.name ≠ x.name := fun heq => h.1 (heq ▸ List.mem_map_of_mem hx')
+        simpa using this
+      simp only [find, List.find?, hne]
+      exact ih h.2 hx'
+
+end Accumulator
+
+namespace Report
+
+theorem nodup_accumulate (es : Elements) : ∀ a : Accumulator, (Accumulator.names a).Nodup → (Accumulator.names (accumulate a es)).Nodup := by
+  induction es with
+  | nil => intro a h; exact h
+  | cons e es ih => intro a h; exact ih _ (Accumulator.nodup_add a e.name e.value h)
+
+theorem mem_names_accumulate (es : Elements) : ∀ (a : Accumulator) (m : Bytes),
+    m ∈ Accumulator.names (accumulate a es) ↔ m ∈ Accumulator.names a ∨ m ∈ es.map (·.name) := by
+  induction es with
+  | nil => intro a m; simp [accumulate]
+  | cons e es ih =>
+    intro a m
+    have := ih (a.add e.name e.value) m
+    simp only [accumulate, List.foldl] at this ⊢
+    rw [this, Accumulator.mem_names_add]
+    simp only [List.map_cons, List.mem_cons]
+    constructor
+    · rintro ((h | h) | h)
+      · exact Or.inl h
+      · exact Or.inr (Or.inl h)
+      · exact Or.inr (Or.inr h)
+    · rintro (h | h | h)
+      · exact Or.inl (Or.inl h)
+      · exact Or.inl (Or.inr h)
+      · exact Or.inr h
+
+/-- accumulating food by food is accumulating the concatenated contributions -/
+theorem foldl_accumulate_flatten (f : Element → Elements) (foods : Elements) : ∀ a : Accumulator,
+    foods.foldl (fun a e => accumulate a (f e)) a = accumulate a (foods.map f).flatten := by
+  induction foods with
+  | nil => intro a; rfl
+  | cons e es ih =>
+    intro a
+    simp only [List.foldl, List.map_cons, List.flatten_cons]
+    rw [ih]
+    simp [accumulate, List.foldl_append]
+
+end Report
+end Hrano
